@@ -791,6 +791,49 @@ def impl_find_dependency(a):
         return err("LEAK:" + type(e).__name__)
 
 
+def gen_field_type(rng, tier):
+    """(1) every member of the live DataType enumeration, directly; (2) every member under each
+    derivation step (restriction, restriction with a pattern, list, unions around it, a member that
+    follows a patterned one); (3) random nestings"""
+    decls = G.TYPE_DECLS
+    codes = G.datatype_codes()
+    for c in codes:
+        yield {"type": {"b": c}, "decls": decls}
+    for c in codes:
+        if c == "anyType":
+            continue
+        b = {"b": c}
+        shapes = [{"r": b, "pattern": False}, {"r": b, "pattern": True}, {"r": {"r": b, "pattern": True}, "pattern": False},
+                  {"u": [b, {"b": "int"}]}, {"u": [{"r": {"b": "int"}, "pattern": True}, b]}, {"u": [b, {"r": {"b": "int"}, "pattern": True}]},
+                  {"u": [{"b": "anySimpleType"}, b]}, {"u": [{"u": [{"b": "error"}]}, b]}]
+        if c not in G.LIST_CODES:
+            shapes += [{"l": b}, {"l": {"r": b, "pattern": True}}, {"u": [{"l": b}, {"b": "date"}]},
+                       {"l": {"r": b, "pattern": False}, "anon": True}, {"l": {"u": [b, {"b": "int"}]}, "anon": True}]
+        for t in (shapes if tier == "thorough" else rng.sample(shapes, 3)):
+            yield {"type": t, "decls": decls[:1] + decls[4:5] if tier != "thorough" else decls}
+    for _ in range(1500 if tier == "thorough" else 60):
+        ds = rng.sample(decls, rng.randint(1, 3))
+        yield {"type": G.gen_sty(rng, rng.randint(1, 3)), "decls": ds}
+
+
+def impl_field_type(a):
+    try:
+        return ok(G.real_field_types(a["type"], a["decls"]))
+    except Exception as e:  # noqa: BLE001
+        return err("LEAK:" + type(e).__name__ + ":" + str(e)[:80])
+
+
+def classify_field_type(a, o):
+    shape = G.sty_shape(a["type"])
+    if len(shape) > 12:
+        shape = shape[:2] + "…depth" + str(shape.count("("))
+    v = o.get("ok") if isinstance(o, dict) else None
+    flags = ""
+    if isinstance(v, dict):
+        flags = ("/tokens" if v.get("tokens") else "") + ("/pattern" if v.get("pattern") else "") + ("/union" if any(" | " in f.replace("None | ", "") for f in v["fields"]) else "")
+    return shape + flags
+
+
 def _c16():
     import props.c16 as c16
 
@@ -828,6 +871,8 @@ CORRS = [
     Corr("gen.find_dependency", gen_find_dependency, impl_find_dependency,
          classify=lambda a, o: f"{a['tag']}/n={len(a['cands'])}/{'own' if a['target'] is not None else 'other'}",
          describe="ProcessAttributeTypes.find_dependency in a real container with every arrangement of same-named Element / ComplexType / SimpleType / Attribute classes vs model"),
+    Corr("gen.field_type", gen_field_type, impl_field_type, classify=classify_field_type,
+         describe="whole real pipeline + stand-in renderer (real Filters.field_type): the annotation of the field of an element / attribute (required, optional, list) of every DataType member and of user simple types (restriction with/without pattern, list, union, nested) + tokens flag vs model"),
     Corr("gen.override", gen_override, impl_override,
          classify=classify_override, describe="ValidateAttributesOverrides.validate_override on constructed child/parent attrs vs model"),
     Corr("gen.restrict_attrs", gen_restrict, impl_restrict_attrs,
@@ -2205,7 +2250,21 @@ def finding_name_clash():
     return (msg is not None and covered_misc(a, msg) == "C02-same-name-type-and-element", msg or "the document now parses")
 
 
+def finding_pattern_retypes():
+    t = {"r": {"b": "int"}, "pattern": True}
+    got = G.real_field_types(t, G.TYPE_DECLS[:1])
+    u = G.real_field_types({"u": [t, {"b": "date"}]}, G.TYPE_DECLS[:1])
+    return (got["fields"] == ["str"] and u["fields"] == ["str"], f"restriction of xs:int with a pattern -> {got['fields'][0]}; union of it and xs:date -> {u['fields'][0]}")
+
+
+def finding_union_any():
+    got = G.real_field_types({"u": [{"b": "anySimpleType"}, {"b": "int"}]}, G.TYPE_DECLS[:1])
+    return (got["fields"] == ["int"], f"union of xs:anySimpleType and xs:int -> {got['fields'][0]}")
+
+
 FINDINGS = {
+    "C02-pattern-facet-retypes-str": finding_pattern_retypes,
+    "C02-union-any-member-dropped": finding_union_any,
     "C02-empty-list-element-dropped": finding_empty_list,
     "C02-same-name-type-and-element": finding_name_clash,
     "C02-duplicate-name-sites": finding_duplicate_sites,
@@ -2221,18 +2280,23 @@ TRUSTED = [
 ]
 ASSUMPTIONS = [
     "modelled fragments: occurrence arithmetic (sequence/choice/all/named groups/substitution groups, extension, restriction overrides), use/default/fixed of "
-    "string-typed or untyped declarations, namespaces and forms (one schema document with imports and chameleon include); simple-type derivation, field python "
-    "types, compound-field arithmetic, wildcards, nillable and mixed content are covered by the oracles only",
+    "string-typed or untyped declarations, namespaces and forms (one schema document with imports and chameleon include), the python type of fields of builtin and "
+    "user simple types (named restriction / list / union, anonymous list items; no enumerations, no facets other than pattern, formats "
+    "of binary types not modelled); compound-field arithmetic, wildcards, nillable and mixed content are covered by the oracles only",
 ]
 LEVEL_TEXT = (
-    "Partial. Lean theorems (Props/C02.lean, Props/C02Ns.lean) about the decisions the property hinges on. Occurrences: for content models "
+    "Partial. Lean theorems (Props/C02.lean, Props/C02Ns.lean, Props/C02Compound.lean, Props/C02Lookup.lean, Props/C02Types.lean) about the decisions the property hinges on. Occurrences: for content models "
     "whose field names occur at one site each, over sequences, choices, xs:all, references to named groups (each with its own range), "
     "substitution groups (whole content models), extension and restriction overrides, a field the generator makes non-list is never repeated "
     "in a valid document, a field it makes required is always present, and a list field is needed, for every particle and every word of its "
     "language; the handlers are total. use/default/fixed: every value a valid element carries for an attribute is accepted and read as its "
     "schema-normalized value; element defaults. Namespaces and forms: the field of every local declaration, reference or global declaration is "
     "bound to the namespace the schema gives it (form, elementFormDefault/attributeFormDefault, targetNamespace, prefixes, default namespace, "
-    "chameleon include), except where the chameleon heuristic for unprefixed references is wrong (counterexample + finding). Counterexample "
+    "chameleon include), except where the chameleon heuristic for unprefixed references is wrong (counterexample + finding). Field types (Props/C02Types.lean): for every member of the live DataType "
+    "enumeration the generated field has the python type XML Schema gives the builtin (and C05's registry serves), a list exactly for the list "
+    "builtins; for user simple types built by restriction, list and union in any nesting the field's python types are exactly those of the builtin "
+    "leaves and it is a list exactly when the type is one, except under a pattern facet or with xs:anySimpleType as a union member (counterexamples + "
+    "findings). Counterexample "
     "theorems for repeated names. The models are tied to /repo by correspondence of each handler / mapper stage and of the whole pipeline's "
     "generated fields and bound names; documents are checked end to end by nine oracles."
 )
